@@ -87,7 +87,7 @@ class DetLoop(asyncio.SelectorEventLoop):
     def has_ready(self) -> bool:
         return bool(self._ready)
 
-    def run_until_idle(self, max_iters: int = 100000) -> int:
+    def run_until_idle(self, max_iters: int = 3000000) -> int:
         """Iterate until no callback is ready, without letting virtual time move."""
         n = 0
         while True:
